@@ -48,13 +48,13 @@ FILES_GLUE = {
     'crates/trippy-tui/src/report/table.rs': ['C10', 'C05'],
     'crates/trippy-tui/src/report/csv.rs': ['C10', 'C05'],
     'crates/trippy-tui/src/report/json.rs': ['C10', 'C05'],
-    'crates/trippy-tui/src/report/types.rs': ['C10', 'C05'],
+    'crates/trippy-tui/src/report/types.rs': ['C10', 'C05', 'C19'],
     'crates/trippy-tui/src/config/theme.rs': ['C16'],
     'crates/trippy-tui/src/config/binding.rs': ['C16'],
     'crates/trippy-tui/src/config/file.rs': ['C16'],
     'crates/trippy-tui/src/geoip.rs': ['C18'],
     'crates/trippy-tui/src/frontend/render/world.rs': ['C18', 'C17'],
-    'crates/trippy-core/src/net/platform/unix.rs': ['C09', 'C16'],
+    'crates/trippy-core/src/net/platform/unix.rs': ['C09', 'C16', 'C10'],
     'crates/trippy-core/src/net/source.rs': ['C09', 'C16'],
     'crates/trippy-core/src/error.rs': ['C09'],
     'crates/trippy-privilege/src/lib.rs': ['C16'],
